@@ -1,4 +1,5 @@
 import Driver.Slots
+import Driver.Sched
 /-!
 Line-protocol driver: one request per stdin line, one answer per stdout line.
 Unknown or ill-formed requests are answered `bad-op` (never defaulted).
@@ -21,8 +22,11 @@ def dispatch (toks : List String) : String :=
 partial def loop (h : IO.FS.Stream) (out : IO.FS.Stream) : IO Unit := do
   let line ← h.getLine
   if line.isEmpty then return ()
-  let toks := (line.trimAscii.toString.splitOn " ").filter (· ≠ "")
-  out.putStrLn (dispatch toks)
+  if line.startsWith "J " then
+    out.putStrLn (handleJson jsonOps (line.drop 2).toString)
+  else
+    let toks := (line.trimAscii.toString.splitOn " ").filter (· ≠ "")
+    out.putStrLn (dispatch toks)
   loop h out
 
 def main : IO Unit := do
